@@ -1,4 +1,5 @@
 import Pms.Props.C11
+import Pms.Props.C11Mod
 
 #print axioms Pms.C11.C11_model_block
 #print axioms Pms.C11.C11_block_entries
@@ -16,3 +17,4 @@ import Pms.Props.C11
 #print axioms Pms.C11.C11_pr_range
 #print axioms Pms.C11.C11_frequencies
 #print axioms Pms.C11.C11_source_shape
+#print axioms Pms.ModShape.C11_module_shape
